@@ -20,7 +20,7 @@ def gen_cases(tier, seed):
         cases.append({"part": "pipeline", "seed": seed * 4003 + i, "n": 6 if q else 16})
     for i in range(4 if q else 48):
         # appended later (rank-changing memory-only operators, EXP / SQUARED_DIFFERENCE lowerings): own cases, so that the earlier ones denote what they always did
-        cases.append({"part": "pipeline", "seed": seed * 4003 + 100000 + i, "n": 6 if q else 16, "fams": ["shape-ops", "approx-tail2", "shape-ops"]})
+        cases.append({"part": "pipeline", "seed": seed * 4003 + 100000 + i, "n": 6 if q else 16, "fams": ["shape-ops", "approx-tail2", "grouped-conv"]})
     return cases
 
 
